@@ -63,8 +63,9 @@ Definition bit (b : bool) (v : nat) : nat := if b then v else 0.
 Definition mverdict (c : mcase) : nat :=
   match c with
   | KGlob pat name res =>
-    if negb (in_grammar (str_of pat) && wf_path (str_of name)) then 8 else
     let parsed := parse_glob (str_of pat) in
+    if negb (in_grammar (str_of pat) && wf_path (str_of name)
+             && match parsed with Some cs => class_star_free cs | None => true end) then 8 else
     let run (strict : bool) := option_map (fun cs => glob_match strict cs (str_of name)) parsed in
     let bad := negb (obool_eqb res (run true)) in
     let agrees := obool_eqb res (run false) in
@@ -88,6 +89,7 @@ Definition mverdict (c : mcase) : nat :=
     match parse_all (map str_of raws) with
     | None => bit (match res with None => false | Some _ => true end) 1
     | Some pats =>
+      if negb (forallb (fun p => class_star_free (comps p)) pats) then 8 else
       let q := rp_of path in
       let model := mut_ignorer false vcs pats q dir in
       let spec := mut_ignorer true vcs pats q dir in
@@ -103,6 +105,7 @@ Definition mverdict (c : mcase) : nat :=
     if negb (forallb (fun r => in_grammar (str_of r)) raws && wf_fnode tree) then 8 else
     match parse_all (map str_of raws), snap with
     | Some pats, Some s =>
+      if negb (forallb (fun p => class_star_free (comps p)) pats) then 8 else
       let '(e, log) := scan (mut_ignorer false vcs pats) tree in
       let impl_log := map (fun pd => EvIgnore (rp_of (fst pd)) (snd pd)) consulted in
       let bad := negb (check_C14_scan vcs pats tree s) in
